@@ -281,6 +281,8 @@ class Source:
         for n, p in enumerate(parts):
             kind, _, name = p.partition(" ")
             name = name.strip()
+            if p.startswith("impl") and not p[4:5].isalnum() and p[4:5] != "_":
+                kind, name = "impl", p[4:].strip()
             if kind == "impl":
                 want = "impl" + norm(name)
                 cands = [x for x in scope if x.kind == "impl" and x.name == want]
